@@ -649,6 +649,8 @@ def select_aggregated(query_context, key, transparent_values):
             raise RbqlParsingError(wrong_aggregation_usage_error) # UT JSON
         query_context.aggregation_stage = 2
     else:
+        if len(transparent_values) != len(query_context.writer.aggregators):
+            raise RbqlRuntimeError('Invalid aggregate expression: the number of output columns is not the same for all records: {} and {}'.format(len(query_context.writer.aggregators), len(transparent_values)))
         for i, trans_value in enumerate(transparent_values):
             query_context.writer.aggregators[i].increment(key, trans_value)
     query_context.writer.aggregation_keys.add(key)
